@@ -33,11 +33,7 @@ Theorem parse_quote_roundtrip_keyword : forall (pre k v : list N) args kw,
   parse pre = POk args kw -> is_ascii k = true ->
   parse (pre ++ COLON :: quoteStringArgument k ++ [EQUALS] ++ quoteStringArgument v)
   = POk args (kw_set kw k v).
-Proof.
-  intros pre k v args kw H Hk.
-  refine (in_context_end pre [Kw k v] (args, kw) ltac:(discriminate) _ H).
-  cbn. rewrite Hk. reflexivity.
-Qed.
+Proof. exact in_context_keyword. Qed.
 Print Assumptions parse_quote_roundtrip_keyword.
 
 (** ... and a non-ASCII keyword name is refused (UnicodeEncodeError), never mis-parsed. *)
